@@ -1102,6 +1102,239 @@ theorem C10_readministration (s : PKState) (cs : List AdminCall) (c : AdminCall)
   simp only [List.foldl_cons, List.foldl_nil, adminStep]
   exact ⟨by rw [hv], hv cs s⟩
 
+/-! ## frames with any row labels; the regimens inside the log-posteriors -/
+
+theorem mem_firstSeen (l : List String) (a : String) : a ∈ firstSeen l ↔ a ∈ l := by
+  induction l with
+  | nil => simp [firstSeen]
+  | cons b t ih =>
+    simp only [firstSeen, List.mem_cons, List.mem_filter, ih]
+    by_cases h : a = b
+    · simp [h]
+    · simp [h]
+
+theorem nodup_firstSeen (l : List String) : (firstSeen l).Nodup := by
+  induction l with
+  | nil => simp [firstSeen]
+  | cons b t ih =>
+    simp only [firstSeen, List.nodup_cons, List.mem_filter]
+    refine ⟨?_, ih.filter _⟩
+    rintro ⟨_, h⟩
+    simp at h
+
+/-- **An individual's rows are its own rows.** The rows from which an individual's regimen is
+    built are exactly the frame's rows carrying that individual's ID (in frame order), whatever the
+    row labels are. -/
+theorem C10_frame_rows_own (frame : List FrameRow) (id : String) (r : DoseRow) :
+    r ∈ rowsOf frame id ↔ ∃ fr ∈ frame, fr.id = id ∧ fr.row = r := by
+  simp only [rowsOf, List.mem_map, List.mem_filter, beq_iff_eq]
+  constructor
+  · rintro ⟨fr, ⟨h1, h2⟩, h3⟩; exact ⟨fr, h1, h2, h3⟩
+  · rintro ⟨fr, h1, h2, h3⟩; exact ⟨fr, ⟨h1, h2⟩, h3⟩
+
+/-- **Row labels play no role.** Relabelling the rows of the frame in any way (repeating labels,
+    labels out of order) changes neither the individuals nor their rows, hence no regimen. -/
+theorem C10_frame_relabel (frame : List FrameRow) (f : FrameRow → Int) (dflt : ℚ) :
+    frameIndividuals (frame.map (fun r => { r with label := f r })) = frameIndividuals frame ∧
+    frameRegimens dflt (frame.map (fun r => { r with label := f r })) = frameRegimens dflt frame := by
+  have h : frameIndividuals (frame.map (fun r => { r with label := f r })) =
+      frameIndividuals frame := by
+    simp only [frameIndividuals, rowsOf, List.map_map, List.filter_map, Function.comp_def]
+  exact ⟨h, by simp only [frameRegimens, h]⟩
+
+theorem setDataGo_ok (dflt : ℚ) : ∀ (inds : List (String × List DoseRow))
+    (r : List (String × List Event)), setDataRegimens.go dflt inds = .ok r →
+    r.map Prod.fst = inds.map Prod.fst ∧
+    ∀ p ∈ r, ∃ rows, (p.1, rows) ∈ inds ∧ rowsToProtocol dflt rows [] = .ok p.2 := by
+  intro inds
+  induction inds with
+  | nil =>
+    intro r h
+    simp only [setDataRegimens.go] at h
+    injection h with h; subst h; simp
+  | cons x xs ih =>
+    intro r h
+    obtain ⟨label, rows⟩ := x
+    simp only [setDataRegimens.go] at h
+    cases h1 : rowsToProtocol dflt rows [] with
+    | error e => rw [h1] at h; cases h
+    | ok evs =>
+      rw [h1] at h
+      simp only at h
+      cases h2 : setDataRegimens.go dflt xs with
+      | error e => rw [h2] at h; cases h
+      | ok r' =>
+        rw [h2] at h
+        simp only at h
+        injection h with h; subst h
+        obtain ⟨ih1, ih2⟩ := ih r' h2
+        refine ⟨by simp [ih1], ?_⟩
+        intro p hp
+        rcases List.mem_cons.mp hp with rfl | hp
+        · exact ⟨rows, by simp, h1⟩
+        · obtain ⟨rows', hm, hr⟩ := ih2 p hp
+          exact ⟨rows', List.mem_cons_of_mem _ hm, hr⟩
+
+/-- **Regimens of a frame.** When `set_data` succeeds on a frame with dose information, there is
+    one regimen per individual of the frame (IDs in order of first appearance, none twice), and the
+    regimen of every individual is the protocol of that individual's own rows — so, by
+    `C10_dataset_rows`, one event per dose row of that individual and nothing else. -/
+theorem C10_frame_regimens (dflt : ℚ) (frame : List FrameRow) (r : List (String × List Event))
+    (h : frameRegimens dflt frame = .ok (some r)) :
+    r.map Prod.fst = firstSeen (frame.map (·.id)) ∧ (r.map Prod.fst).Nodup ∧
+    ∀ p ∈ r, rowsToProtocol dflt (rowsOf frame p.1) [] = .ok p.2 := by
+  simp only [frameRegimens, setDataRegimens] at h
+  cases hg : setDataRegimens.go dflt (frameIndividuals frame) with
+  | error e => rw [hg] at h; cases h
+  | ok r' =>
+    rw [hg] at h
+    simp only at h
+    injection h with h; injection h with h; subst h
+    obtain ⟨h1, h2⟩ := setDataGo_ok dflt _ _ hg
+    have hk : r'.map Prod.fst = firstSeen (frame.map (·.id)) := by
+      rw [h1]; simp [frameIndividuals, Function.comp_def]
+    refine ⟨hk, hk ▸ nodup_firstSeen _, ?_⟩
+    intro p hp
+    obtain ⟨rows, hm, hr⟩ := h2 p hp
+    simp only [frameIndividuals, List.mem_map] at hm
+    obtain ⟨id, _, heq⟩ := hm
+    injection heq with e1 e2
+    subst e1; subst e2; exact hr
+
+/-- selection by row label is the selection by ID when the row labels are unique … -/
+theorem C10_frame_by_label (frame : List FrameRow) (id : String)
+    (hu : (frame.map (·.label)).Nodup) : rowsOfByLabel frame id = rowsOf frame id := by
+  simp only [rowsOfByLabel, rowsOf]
+  congr 1
+  apply List.filter_congr
+  intro r hr
+  have hinj := List.inj_on_of_nodup_map hu
+  by_cases hid : r.id = id
+  · have : r.label ∈ (frame.filter (fun r => r.id == id)).map (·.label) :=
+      List.mem_map.mpr ⟨r, List.mem_filter.mpr ⟨hr, by simp [hid]⟩, rfl⟩
+    simp [hid, List.contains_iff_mem, this]
+  · have : ¬ r.label ∈ (frame.filter (fun r => r.id == id)).map (·.label) := by
+      intro hm
+      obtain ⟨r', hr', hl⟩ := List.mem_map.mp hm
+      obtain ⟨hr'1, hr'2⟩ := List.mem_filter.mp hr'
+      have := hinj hr'1 hr hl
+      subst this
+      simp at hr'2
+      exact hid hr'2
+    simp [hid, List.contains_iff_mem, this]
+
+/-- … and hands an individual the dose rows of others when they repeat: two individuals glued
+    together, each block labelled 0, 1 -/
+theorem C10_frame_by_label_counterexample :
+    let frame : List FrameRow :=
+      [⟨0, "a", ⟨some 0, some 10, none⟩⟩, ⟨1, "a", ⟨some 1, none, none⟩⟩,
+       ⟨0, "b", ⟨some 2, some 4, none⟩⟩, ⟨1, "b", ⟨some 3, none, none⟩⟩]
+    (rowsOf frame "b").length = 2 ∧ (rowsOfByLabel frame "b").length = 4 := by
+  decide +kernel
+
+/-! ### the regimen each individual's likelihood simulates with -/
+
+theorem mem_of_lookup {β : Type} (l : List (String × β)) (k : String) (v : β)
+    (h : l.lookup k = some v) : (k, v) ∈ l := by
+  induction l with
+  | nil => simp at h
+  | cons x xs ih =>
+    obtain ⟨a, b⟩ := x
+    simp only [List.lookup_cons] at h
+    by_cases hk : k = a
+    · subst hk
+      simp at h
+      subst h
+      simp
+    · have : (k == a) = false := by simp [hk]
+      rw [this] at h
+      exact List.mem_cons_of_mem _ (ih h)
+
+/-- **Every likelihood gets its own individual's regimen.** With regimens derived from the dataset
+    (`regs` non-empty), whatever regimen the controller's model carried before (`own`) and in
+    whatever order the individuals are handled, the likelihood of each individual simulates with
+    exactly the regimen `get_dosing_regimens()` reports for that individual — also when that regimen
+    has no events. -/
+theorem C10_likelihood_regimen (regs : List (String × List Event)) (hne : regs ≠ []) :
+    ∀ (ids : List String) (own : Option (List Event)) (out : List (String × Option (List Event))),
+    likelihoodRegimens (some regs) own ids = .ok out →
+    out.map Prod.fst = ids ∧ ∀ p ∈ out, ∃ evs, regs.lookup p.1 = some evs ∧ p.2 = some evs := by
+  intro ids
+  induction ids with
+  | nil =>
+    intro own out h
+    simp only [likelihoodRegimens] at h
+    injection h with h; subst h; simp
+  | cons id rest ih =>
+    intro own out h
+    obtain ⟨p0, r0, rfl⟩ : ∃ p r, regs = p :: r := by
+      cases regs with
+      | nil => exact absurd rfl hne
+      | cons p r => exact ⟨p, r, rfl⟩
+    simp only [likelihoodRegimens, setFor] at h
+    cases hl : List.lookup id (p0 :: r0) with
+    | none => rw [hl] at h; cases h
+    | some evs =>
+      rw [hl] at h
+      simp only at h
+      cases hr : likelihoodRegimens (some (p0 :: r0)) (some evs) rest with
+      | error e => rw [hr] at h; cases h
+      | ok out' =>
+        rw [hr] at h
+        simp only at h
+        injection h with h; subst h
+        obtain ⟨ih1, ih2⟩ := ih (some evs) out' hr
+        refine ⟨by simp [ih1], ?_⟩
+        intro p hp
+        rcases List.mem_cons.mp hp with rfl | hp
+        · exact ⟨evs, hl, rfl⟩
+        · exact ih2 p hp
+
+/-- the regimen the controller's model was created with plays no role once the dataset has dose
+    information -/
+theorem C10_likelihood_own_irrelevant (regs : List (String × List Event)) (hne : regs ≠ [])
+    (ids : List String) (own own' : Option (List Event)) :
+    likelihoodRegimens (some regs) own ids = likelihoodRegimens (some regs) own' ids := by
+  obtain ⟨p0, r0, rfl⟩ : ∃ p r, regs = p :: r := by
+    cases regs with
+    | nil => exact absurd rfl hne
+    | cons p r => exact ⟨p, r, rfl⟩
+  cases ids with
+  | nil => simp [likelihoodRegimens]
+  | cons id rest => simp only [likelihoodRegimens, setFor]
+
+/-- **From the frame to the likelihood.** For a frame with dose information on which `set_data`
+    succeeds, the likelihood of every requested individual of the frame simulates with the protocol
+    of that individual's own dose rows: no events for an individual without dose rows, never the
+    events of the individual handled before it or of the model the controller was created with. -/
+theorem C10_dataset_likelihood_rows (dflt : ℚ) (frame : List FrameRow)
+    (regs : List (String × List Event)) (hne : regs ≠ [])
+    (h : frameRegimens dflt frame = .ok (some regs)) (ids : List String)
+    (own : Option (List Event)) (out : List (String × Option (List Event)))
+    (ho : likelihoodRegimens (some regs) own ids = .ok out) :
+    out.map Prod.fst = ids ∧
+    ∀ p ∈ out, ∃ evs, p.2 = some evs ∧ rowsToProtocol dflt (rowsOf frame p.1) [] = .ok evs := by
+  obtain ⟨h1, h2⟩ := C10_likelihood_regimen regs hne ids own out ho
+  obtain ⟨_, _, h3⟩ := C10_frame_regimens dflt frame regs h
+  refine ⟨h1, ?_⟩
+  intro p hp
+  obtain ⟨evs, hl, he⟩ := h2 p hp
+  refine ⟨evs, he, ?_⟩
+  have hm : (p.1, evs) ∈ regs := mem_of_lookup regs p.1 evs hl
+  exact h3 (p.1, evs) hm
+
+/-- a working copy on which empty regimens are skipped would hand the untreated individual the
+    doses of the individual handled before it, or those of the controller's own model -/
+theorem C10_likelihood_skip_empty_counterexample :
+    let a : List Event := [⟨10, 0, 1, 0, 0⟩]
+    let own : List Event := [⟨500, 0, 1/10, 1, 0⟩]
+    let regs : List (String × List Event) := [("A", a), ("B", [])]
+    likelihoodRegimens (some regs) (some own) ["A", "B"] = .ok [("A", some a), ("B", some [])] ∧
+    likelihoodRegimensSkipEmpty regs (some own) ["A", "B"] = [("A", some a), ("B", some a)] ∧
+    likelihoodRegimens (some regs) (some own) ["B"] = .ok [("B", some [])] ∧
+    likelihoodRegimensSkipEmpty regs (some own) ["B"] = [("B", some own)] := by
+  decide +kernel
+
 /-! ## non-vacuity -/
 
 example : regimenToEvent 2 (1/2) (1/4) (some 1) none = .ok ⟨8, 1/2, 1/4, 1, 0⟩ := by
